@@ -719,6 +719,31 @@ def guard_conditions(body, site_bb, expand_named=True):
     return out
 
 
+def switch_edge_conds(body, a, expand_named=True):
+    """For the SwitchInt ending block a: [(target, cond_expr, polarity, value)] with the same normalisation
+    as guard_conditions (one entry per outgoing edge)."""
+    t = body.blocks[a]["term"]
+    if t["k"] != "switch":
+        return []
+    e0 = body.expr(t["discr"], expand_named=expand_named)
+    vals = [x[0] for x in t["targets"]]
+    out = []
+    for v, s in [(x[0], x[1]) for x in t["targets"]] + [("otherwise", t["otherwise"])]:
+        if t["dty"] == "bool":
+            if vals == [0]:
+                pol = (v == "otherwise")
+            elif vals == [1]:
+                pol = (v == 1)
+            else:
+                pol = (v != 0) if v != "otherwise" else None
+            e, pol = peel_bool(e0, pol)
+            out.append((s, e, pol, v))
+        else:
+            pol = ("not", tuple(vals)) if v == "otherwise" else v
+            out.append((s, e0, pol, v))
+    return out
+
+
 def peel_bool(e, pol):
     """Peel Not / is_some / is_none / is_empty-style wrappers, adjusting polarity where the wrapper negates."""
     changed = True
